@@ -133,7 +133,7 @@ Scenarios ==
 \* Judging one recorded run.  q fields (all numbers DecFloat):
 \*   geo, cy, a (adsorbate), h (adsorbent), lnp (ln of the pressures fed), n (loadings fed), ln1m (ln(1-theta_j), cy only)
 \*   L  (the k <= N lengths returned by the library's solver, in solver units: slab distance / radius)
-\*   f0, fm, fp (the library's own dimensionless potential Phi/RT observed at L, L(1-eps), L(1+eps))
+\*   f0, fm, fp, gm, gp (the library's own dimensionless potential Phi/RT observed at L, L(1 -/+ 1e-3), L(1 -/+ 1e-4))
 \*   w, dist, cum (the three arrays returned); a non-finite entry is encoded <<0, 9999>>
 \*   chosen (slit HK round trip only: the widths the pressures were computed for; else <<>>)
 NonFinite(x) == x[2] = 9999
@@ -154,11 +154,15 @@ JTarget(q) == LET c == JCorr(q) IN [j \in 1..Len(q.n) |-> DAdd(q.lnp[j], c[j])]
 \*   localext L is a local extremum of the library's potential that does not reach the target (a minimiser of
 \*            the squared residual which is not a solution)
 \*   other    none of these
+\* the potential is observed at two distances from L: eps = 1e-3 (fm, fp) and 1e-4 (gm, gp); the layer-counting
+\* potentials have jumps closer than 1e-3 L to some of their local minima
 EqClass(q, tg, j) ==
-   LET f0 == q.f0[j]  fm == q.fm[j]  fp == q.fp[j]  t == tg[j]
+   LET f0 == q.f0[j]  t == tg[j]
+       Br(a, b) == DLeq(DMin(a, b), t) /\ DLeq(t, DMax(a, b))
+       Ext(a, b) == (DLt(t, f0) /\ DLeq(f0, a) /\ DLeq(f0, b)) \/ (DLt(f0, t) /\ DLeq(a, f0) /\ DLeq(b, f0))
    IN IF AbsLe(f0, t, Eps3) THEN "root"
-      ELSE IF DLeq(DMin(fm, fp), t) /\ DLeq(t, DMax(fm, fp)) THEN "bracket"
-      ELSE IF (DLt(t, f0) /\ DLeq(f0, fm) /\ DLeq(f0, fp)) \/ (DLt(f0, t) /\ DLeq(fm, f0) /\ DLeq(fp, f0)) THEN "localext"
+      ELSE IF Br(q.fm[j], q.fp[j]) \/ Br(q.gm[j], q.gp[j]) THEN "bracket"
+      ELSE IF Ext(q.fm[j], q.fp[j]) \/ Ext(q.gm[j], q.gp[j]) THEN "localext"
       ELSE "other"
 
 JW(q) == [j \in 1..Len(q.L) |-> WidthOf(q.geo, q.L[j], q.h)]
